@@ -270,7 +270,7 @@ theorem abort_skips_exit_trap (fuel : Nat) (s : St) (script : List Line) (e : Op
 example :
     let script : List Line :=
       [.cmds [.mk (.mk false [.setE true]) [], .mk (.mk false [.trapExit [.mk (.mk false [.probe 99]) []]]) []],
-       .cmds [.mk (.mk false [.ifc [.mk (.mk false [.st 3]) []] [.mk (.mk false [.call .colon]) []] [] none]) []],
+       .cmds [.mk (.mk false [.ifc [.mk (.mk false [.st 3]) []] [.mk (.mk false [.call .colon 0]) []] [] none]) []],
        .cmds [.mk (.mk false [.st 5]) []],
        .cmds [.mk (.mk false [.probe 1]) []]]
     (runShell 50 {} script).1.trace = [(99, 5)] ∧ (runShell 50 {} script).1.status = 5 ∧
